@@ -70,7 +70,7 @@ typedef struct actor {
     volatile int resumes_issued, suspends_returned;
     volatile int pc_at_join, join_seen;
     volatile uint64_t cancel_ret_tick;
-    volatile int suspends_called, resume_rounds_done, seen_terminated, reviving, h_valid;
+    volatile int suspends_called, resume_rounds_done, seen_terminated, reviving, h_valid, freeing;
 } actor;
 
 typedef struct {
